@@ -646,7 +646,9 @@ pub fn write_gsub_liga(rules: &[LigaRule], script_tags: &[u32], feature: u32) ->
 #[derive(Clone, Debug)]
 pub struct Universe {
     pub n: u16,
-    pub class: Vec<u8>,       // GDEF glyph class: 0 none, 1 base, 2 ligature, 3 mark, 4 component
+    pub class: Vec<u8>,       // GDEF glyph class as written: 0 none, 1 base, 2 ligature, 3 mark, 4 component
+    pub intent: Vec<u8>,      // what the glyph is meant to be (generation only; never read by the model)
+    pub has_classdef: bool,   // GDEF carries a glyph class definition
     pub mac: Vec<u8>,         // mark attachment class (0 = none)
     pub sets: Vec<Vec<u16>>,  // mark glyph sets
     pub adv: Vec<u16>,        // hmtx advance widths
@@ -658,10 +660,10 @@ pub struct Universe {
 
 impl Universe {
     pub fn of_class(&self, c: u8) -> Vec<u16> {
-        (1..self.n).filter(|&g| self.class[g as usize] == c).collect()
+        (1..self.n).filter(|&g| self.intent[g as usize] == c).collect()
     }
     pub fn cls(&self, g: u16) -> u8 {
-        if self.has_gdef {
+        if self.has_gdef && self.has_classdef {
             self.class.get(g as usize).copied().unwrap_or(0)
         } else {
             0
@@ -683,7 +685,12 @@ impl Universe {
                 md.map.insert(g, self.mac[g as usize] as u16);
             }
         }
-        o.link(cd.obj()).null().null();
+        if self.has_classdef {
+            o.link(cd.obj());
+        } else {
+            o.null();
+        }
+        o.null().null();
         if md.map.is_empty() {
             o.null();
         } else {
@@ -840,7 +847,9 @@ fn cov_fmt(rng: &mut Rng) -> u8 {
     1 + rng.below(3) as u8
 }
 
-fn gen_universe(rng: &mut Rng, opts: &Opts, has_gdef: bool) -> Universe {
+/// `declass`: 0 = GDEF classes every glyph as meant, 1 = GDEF without glyph class definition,
+/// 2 = some marks are left unclassified or classed as base glyphs
+fn gen_universe(rng: &mut Rng, opts: &Opts, has_gdef: bool, declass: u8) -> Universe {
     let n = rng.urange(20, 48) as u16;
     let mut class = vec![0u8; n as usize];
     let mut mac = vec![0u8; n as usize];
@@ -866,6 +875,15 @@ fn gen_universe(rng: &mut Rng, opts: &Opts, has_gdef: bool) -> Universe {
         }
     }
     adv[0] = 500;
+    let intent = class.clone();
+    if declass == 2 {
+        for g in 1..n as usize {
+            if class[g] == 3 && rng.chance(1, 3) {
+                class[g] = if rng.bool() { 0 } else { 1 };
+                mac[g] = 0;
+            }
+        }
+    }
     let marks: Vec<u16> = (1..n).filter(|&g| class[g as usize] == 3).collect();
     let mut sets = Vec::new();
     for _ in 0..rng.below(4) {
@@ -873,7 +891,7 @@ fn gen_universe(rng: &mut Rng, opts: &Opts, has_gdef: bool) -> Universe {
         sets.push(Cov::new(pick_n(rng, &marks, k), 1).glyphs);
     }
     let gdef_minor = if sets.is_empty() { *rng.pick(&[0u16, 0, 2, 3]) } else { *rng.pick(&[2u16, 3]) };
-    Universe { n, class, mac, sets, adv, has_gdef, gdef_minor, class_fmt: 1 + rng.below(2) as u8, mac_fmt: 1 + rng.below(2) as u8 }
+    Universe { n, class, intent, has_classdef: declass != 1, mac, sets, adv, has_gdef, gdef_minor, class_fmt: 1 + rng.below(2) as u8, mac_fmt: 1 + rng.below(2) as u8 }
 }
 
 fn gen_vf(rng: &mut Rng) -> u16 {
@@ -988,10 +1006,11 @@ struct Gen<'a> {
 impl<'a> Gen<'a> {
     fn new(rng: &'a mut Rng, uni: &'a Universe, opts: &'a Opts) -> Gen<'a> {
         let all: Vec<u16> = (1..uni.n).collect();
-        let marks: Vec<u16> = all.iter().copied().filter(|&g| uni.is_mark(g)).collect();
-        let nonmarks: Vec<u16> = all.iter().copied().filter(|&g| !uni.is_mark(g)).collect();
-        let bases: Vec<u16> = all.iter().copied().filter(|&g| uni.cls(g) == 1 || uni.cls(g) == 0).collect();
-        let ligs: Vec<u16> = all.iter().copied().filter(|&g| uni.cls(g) == 2).collect();
+        let it = |g: u16| uni.intent[g as usize];
+        let marks: Vec<u16> = all.iter().copied().filter(|&g| it(g) == 3).collect();
+        let nonmarks: Vec<u16> = all.iter().copied().filter(|&g| it(g) != 3).collect();
+        let bases: Vec<u16> = all.iter().copied().filter(|&g| it(g) == 1 || it(g) == 0).collect();
+        let ligs: Vec<u16> = all.iter().copied().filter(|&g| it(g) == 2).collect();
         Gen { rng, uni, opts, hints: Vec::new(), wide: Vec::new(), all, bases, ligs, marks, nonmarks }
     }
 
@@ -1422,12 +1441,19 @@ pub fn generate(rng: &mut Rng, opts: &Opts) -> Case {
         _ => Scenario::Mixed,
     };
     let scenario = opts.only.unwrap_or(scenario);
-    let has_gdef = match scenario {
-        Scenario::KernOnly => false,
-        Scenario::Adjust | Scenario::Context | Scenario::KernFallback => !rng.chance(1, 6),
-        _ => true,
+    // mark attachment is decided by the coverage tables of the lookup, GDEF only drives the
+    // lookup flags: fonts without GDEF, without glyph classes, or with marks GDEF does not class
+    let (has_gdef, declass) = match scenario {
+        Scenario::KernOnly => (false, 0),
+        Scenario::Adjust | Scenario::Context | Scenario::KernFallback => (!rng.chance(1, 6), 0),
+        _ => match rng.below(20) {
+            0 | 1 => (false, 0),
+            2 | 3 => (true, 1),
+            4..=6 => (true, 2),
+            _ => (true, 0),
+        },
     };
-    let uni = gen_universe(rng, opts, has_gdef);
+    let uni = gen_universe(rng, opts, has_gdef, declass);
     let mut hints: Vec<Vec<u16>> = Vec::new();
     let mut wide_reasons: Vec<&'static str> = Vec::new();
     let mut lookups: Vec<Lookup> = Vec::new();
@@ -1569,7 +1595,10 @@ pub fn generate(rng: &mut Rng, opts: &Opts) -> Case {
         let rng = &mut *g.rng;
 
         // ligature formation through GSUB (only on the Font::shape path)
-        if !direct && matches!(scenario, Scenario::Marks | Scenario::Mixed) && rng.chance(1, 2) {
+        // (only with a GDEF that classes every glyph: allsorts' ligature substitution tags every
+        // following glyph that is neither base nor ligature with a component number, which leaks
+        // into mark-to-ligature attachment of glyphs GDEF does not class as marks)
+        if !direct && has_gdef && declass == 0 && matches!(scenario, Scenario::Marks | Scenario::Mixed) && rng.chance(1, 2) {
             let ligs = uni.of_class(2);
             let mut comp_pool: Vec<u16> = uni.of_class(4);
             comp_pool.extend(uni.of_class(0));
@@ -1713,7 +1742,7 @@ pub fn generate(rng: &mut Rng, opts: &Opts) -> Case {
     let all: Vec<u16> = (1..uni.n).collect();
     let reserved: Vec<u16> = liga.iter().flat_map(|r| r.comps.clone()).collect();
     let free: Vec<u16> = all.iter().copied().filter(|g| !reserved.contains(g)).collect();
-    let marks: Vec<u16> = free.iter().copied().filter(|&g| uni.is_mark(g)).collect();
+    let marks: Vec<u16> = free.iter().copied().filter(|&g| uni.intent[g as usize] == 3).collect();
     let mut input: Vec<u16> = Vec::new();
     let target = if rng.chance(1, 8) { rng.small(3) } else { rng.urange(2, 16) };
     while input.len() < target {
